@@ -624,13 +624,16 @@ impl Bgi {
         let mut pal = Palette::new();
         pal.clear();
         for c in colors {
-            pal.push(EGA_PALETTE[*c as usize].clone());
+            pal.push(EGA_PALETTE[(*c as usize) % EGA_PALETTE.len()].clone());
         }
         self.palette = pal;
     }
 
     pub fn set_palette_color(&mut self, index: i32, color: u8) {
-        self.palette.set_color(index as u32, EGA_PALETTE[color as usize].clone());
+        if !(0..16).contains(&index) {
+            return;
+        }
+        self.palette.set_color(index as u32, EGA_PALETTE[color as usize % EGA_PALETTE.len()].clone());
     }
 
     pub fn get_font_type(&self) -> FontType {
